@@ -13,7 +13,7 @@ THEOREMS = [
     "entropy_nonpositive_bar_errors", "entropy_keep_inf_needs_value",
 ]
 RULE = ("seeded generator over classes {single array, list of diagrams, equal lengths, infinite bars "
-        "dropped / substituted, keep_inf without value, non-positive bar, scales 1e-6..1e6, integer-dtype arrays} x flag "
+        "dropped / substituted, keep_inf without value, non-positive bar, scales 1e-6..1e6, integer-dtype arrays, exactly one remaining bar (valid or of non-positive length)} x flag "
         "combinations; a case is non-trivial when the call succeeds on a diagram with >= 2 finite bars "
         "of different lengths, or exercises an error / infinite-bar branch; distinct = distinct JSON input")
 TRUSTED_BASE = [
@@ -48,7 +48,7 @@ def generate(rng, tier):
     cases = []
     for i in range(n_cases):
         cls = rng.choice(["single", "single", "list", "equal", "inf_drop", "inf_subst", "inf_noval",
-                          "badbar", "zerobar", "scale", "intdtype", "intdtype"])
+                          "badbar", "zerobar", "scale", "intdtype", "intdtype", "onebar", "onebar_bad", "onebar_bad"])
         scale = 1.0
         if cls == "scale":
             scale = rng.choice([1e-6, 1e-3, 1e3, 1e6, 2.0 ** 20, 2.0 ** -20])
@@ -61,6 +61,24 @@ def generate(rng, tier):
             d = _bars(rng, n, scale, equal=(cls == "equal"))
             dgms.append(d)
         dtype = "float"
+        if cls in ("onebar", "onebar_bad"):
+            # exactly one bar is left after the infinite-bar step: a valid one gives 0, a bar of
+            # non-positive length must still raise (normalize is outside the quantifier for n < 2)
+            normalize = False
+            b = rng.choice([rng.uniform(-3, 3), float(rng.randint(-2, 5))])
+            ln = rng.choice([rng.uniform(0.1, 4), 1.0]) if cls == "onebar" else rng.choice([0.0, 0.0, -rng.uniform(0.1, 2), -1.0])
+            dgms = [[[b, b + ln]]]
+            r = rng.random()
+            if r < 0.35:      # plus infinite bars that get dropped
+                for _ in range(rng.randint(1, 2)):
+                    dgms[0].insert(rng.randint(0, len(dgms[0])), [rng.uniform(-1, 1), "inf"])
+            elif r < 0.5 and cls == "onebar_bad":   # a lone infinite bar substituted by a value <= its birth
+                b0 = rng.uniform(0, 3)
+                dgms = [[[b0, "inf"]]]
+                keep_inf, val_inf = True, b0 - rng.choice([0.0, 0.5, 2.0])
+            if rng.random() < 0.4:
+                dgms.insert(rng.randint(0, 1), _bars(rng, rng.randint(2, 4), 1.0))
+                nd = len(dgms)
         if cls == "intdtype":
             # integer-valued bars handed over as integer-dtype arrays (the result must still be real)
             dtype = rng.choice(["int64", "int32", "int64"])
@@ -84,7 +102,7 @@ def generate(rng, tier):
             d = dgms[0]
             j = rng.randrange(len(d))
             d[j] = [d[j][0], d[j][0]]
-        single = (nd == 1 and rng.random() < 0.6)
+        single = (len(dgms) == 1 and rng.random() < 0.6)
         cases.append({"cls": cls, "dgms": dgms, "single": single, "keep_inf": keep_inf,
                       "val_inf": val_inf, "normalize": normalize, "dtype": dtype})
     return cases
